@@ -227,95 +227,153 @@ Section Sound.
       apply (IH s1 Hl); [|exact H2]. eapply check_ga_sound; eauto.
   Qed.
 
-  (* ---- initial block: assignments are unconditional and read only what is already
-     initialised or never initialised (declared types are taken as given) ---- *)
+  (* ---- initial block: assignments are unconditional; value sets are tracked flow-
+     sensitively in a local environment L (the typer also evaluates the initial block in
+     order), declared types of variables not initialised there are taken as given ---- *)
   Definition mem_var (x : var) (l : list var) : bool := existsb (var_eqb x) l.
-  Definition readable (initvars done : list var) : var -> bool :=
-    fun x => mem_var x done || negb (mem_var x initvars).
+  Definition declared (initvars : list var) (T : tenv) : tenv :=
+    filter (fun xt => negb (mem_var (fst xt) initvars)) T.
+  Definition remove_var (x : var) (L : tenv) : tenv := filter (fun yt => negb (var_eqb (fst yt) x)) L.
 
-  Definition check_init_ga (initvars done : list var) (T : tenv) (g : gassign) : bool :=
-    match ga_cond g with
-    | CTrue =>
-        match tlookup T (ga_var g) with
-        | None => true
-        | Some vs =>
-            match rhs_set (readable initvars done) T (ga_rhs g) with
-            | Some rs => subset rs vs
-            | None => false
-            end
-        end
-    | _ => false
-    end.
-
-  Fixpoint check_init (initvars done : list var) (T : tenv) (l : list gassign) : bool :=
+  Fixpoint init_env (D : tenv) (L : tenv) (l : list gassign) : option tenv :=
     match l with
-    | [] => true
-    | g :: l' => check_init_ga initvars done T g && check_init initvars (ga_var g :: done) T l'
+    | [] => Some L
+    | g :: l' =>
+        match ga_cond g with
+        | CTrue =>
+            match rhs_set all_vars (L ++ D) (ga_rhs g) with
+            | Some rs => init_env D ((ga_var g, rs) :: L) l'
+            | None => init_env D (remove_var (ga_var g) L) l'
+            end
+        | _ => None
+        end
     end.
 
-  Lemma typed_on_upd R T s x v :
-    typed_on R T s -> (forall vs, tlookup T x = Some vs -> In v vs) ->
-    typed_on (fun y => var_eqb y x || R y) T (upd s x v).
+  Definition check_init (T : tenv) (l : list gassign) : bool :=
+    let initvars := map ga_var l in
+    match init_env (declared initvars T) [] l with
+    | Some L =>
+        forallb (fun xt => if mem_var (fst xt) initvars
+                           then match tlookup L (fst xt) with Some rs => subset rs (snd xt) | None => false end
+                           else true) T
+    | None => false
+    end.
+
+  Lemma tlookup_app L D x :
+    tlookup (L ++ D) x = match tlookup L x with Some v => Some v | None => tlookup D x end.
   Proof.
-    intros HT Hv y vs Hy Hl. unfold upd. destruct (var_eqb y x) eqn:E.
-    - apply String.eqb_eq in E; subst; auto.
-    - simpl in Hy. auto.
+    induction L as [|[y vs] L IH]; simpl; [reflexivity|]. destruct (var_eqb x y); [reflexivity | exact IH].
   Qed.
-
-  Lemma readable_cons initvars done x y :
-    readable initvars (x :: done) y = (var_eqb y x || readable initvars done y).
-  Proof. unfold readable, mem_var; simpl. rewrite orb_assoc. reflexivity. Qed.
-
-  Lemma typed_on_ext R R' T s : (forall x, R x = R' x) -> typed_on R T s -> typed_on R' T s.
-  Proof. intros E H x vs Hx; apply H; rewrite E; exact Hx. Qed.
-
-  Lemma check_init_sound initvars T l : forall done s,
-    check_init initvars done T l = true -> typed_on (readable initvars done) T s ->
-    forall s', supp (exec_gas law l s) s' ->
-      typed_on (readable initvars (rev (map ga_var l) ++ done)) T s'.
+  Lemma tlookup_remove_same x L : tlookup (remove_var x L) x = None.
   Proof.
-    induction l as [|g l IH]; simpl; intros done s H HT s' Hs'.
-    - apply supp_ret in Hs'; subst; exact HT.
-    - apply andb_true_iff in H; destruct H as [Hg Hl].
-      apply supp_bind in Hs'. destruct Hs' as [s1 [H1 H2]].
-      rewrite <- app_assoc; simpl. apply (IH (ga_var g :: done) s1 Hl); [|exact H2].
-      unfold check_init_ga in Hg. unfold exec_ga in H1.
-      destruct (ga_cond g); try discriminate. simpl in H1.
-      apply supp_bind in H1. destruct H1 as [v [Hv Hs1]]. apply supp_ret in Hs1; subst.
-      eapply typed_on_ext; [intros x; symmetry; apply readable_cons|].
-      apply typed_on_upd; [exact HT|].
-      intros vs Hvs. rewrite Hvs in Hg.
-      destruct (rhs_set (readable initvars done) T (ga_rhs g)) as [rs|] eqn:Er; [|discriminate].
-      apply (subset_In _ _ Hg). eapply rhs_set_sound; eauto.
+    induction L as [|[y vs] L IH]; simpl; [reflexivity|].
+    destruct (var_eqb y x) eqn:E; simpl; [exact IH|].
+    destruct (var_eqb x y) eqn:E2; [|exact IH].
+    apply String.eqb_eq in E2; subst. unfold var_eqb in E. rewrite String.eqb_refl in E. discriminate.
   Qed.
-
-  Definition check_types (fp : flatprog) (T : tenv) : bool :=
-    check_init (map ga_var (fp_init fp)) [] T (fp_init fp)
-    && forallb (check_ga T) (fp_body fp).
-
-  (* what is assumed of the state before the initial block: variables that are typed but
-     not initialised there (declared types) hold a value of their type *)
-  Definition init_ok (fp : flatprog) (T : tenv) (s0 : state) : Prop :=
-    typed_on (readable (map ga_var (fp_init fp)) []) T s0.
+  Lemma tlookup_remove_other x y L : var_eqb y x = false -> tlookup (remove_var x L) y = tlookup L y.
+  Proof.
+    intros Hyx; induction L as [|[z vs] L IH]; simpl; [reflexivity|].
+    destruct (var_eqb z x) eqn:E; simpl.
+    - apply String.eqb_eq in E; subst. rewrite Hyx. exact IH.
+    - destruct (var_eqb y z); [reflexivity | exact IH].
+  Qed.
+  Lemma tlookup_declared_init initvars T x :
+    mem_var x initvars = true -> tlookup (declared initvars T) x = None.
+  Proof.
+    intros Hx; induction T as [|[y vs] T IH]; simpl; [reflexivity|].
+    destruct (mem_var y initvars) eqn:Ey; simpl; [exact IH|].
+    destruct (var_eqb x y) eqn:E; [|exact IH].
+    apply String.eqb_eq in E; subst. congruence.
+  Qed.
+  Lemma tlookup_declared_other initvars T x :
+    mem_var x initvars = false -> tlookup (declared initvars T) x = tlookup T x.
+  Proof.
+    intros Hx; induction T as [|[y vs] T IH]; simpl; [reflexivity|].
+    destruct (mem_var y initvars) eqn:Ey; simpl.
+    - destruct (var_eqb x y) eqn:E; [|exact IH]. apply String.eqb_eq in E; subst. congruence.
+    - destruct (var_eqb x y); [reflexivity | exact IH].
+  Qed.
 
   Lemma mem_var_In x l : In x l -> mem_var x l = true.
   Proof.
     unfold mem_var; intros H. apply existsb_exists. exists x; split; [exact H | apply String.eqb_refl].
   Qed.
 
+  Lemma init_env_sound D initvars l : (forall g, In g l -> mem_var (ga_var g) initvars = true) ->
+    (forall x, mem_var x initvars = true -> tlookup D x = None) ->
+    forall L L' s, init_env D L l = Some L' -> typed (L ++ D) s ->
+    forall s', supp (exec_gas law l s) s' -> typed (L' ++ D) s'.
+  Proof.
+    intros Hin HD. induction l as [|g l IH]; simpl; intros L L' s H HT s' Hs'.
+    - injection H as <-. apply supp_ret in Hs'; subst; exact HT.
+    - apply supp_bind in Hs'. destruct Hs' as [s1 [H1 H2]].
+      assert (Hl : forall g0, In g0 l -> mem_var (ga_var g0) initvars = true) by (intros; apply Hin; right; assumption).
+      unfold exec_ga in H1. destruct (ga_cond g); try discriminate. simpl in H1.
+      apply supp_bind in H1. destruct H1 as [v [Hv Hs1]]. apply supp_ret in Hs1; subst s1.
+      destruct (rhs_set all_vars (L ++ D) (ga_rhs g)) as [rs|] eqn:Er.
+      + apply (IH Hl _ _ (upd s (ga_var g) v) H); [|exact H2].
+        intros y vs Hy. simpl in Hy. unfold upd. destruct (var_eqb y (ga_var g)) eqn:E.
+        * injection Hy as <-. eapply rhs_set_sound; eauto. apply typed_all; exact HT.
+        * apply HT; exact Hy.
+      + apply (IH Hl _ _ (upd s (ga_var g) v) H); [|exact H2].
+        intros y vs Hy. rewrite tlookup_app in Hy. unfold upd. destruct (var_eqb y (ga_var g)) eqn:E.
+        * apply String.eqb_eq in E; subst y. rewrite tlookup_remove_same in Hy.
+          rewrite HD in Hy; [discriminate | apply Hin; left; reflexivity].
+        * rewrite (tlookup_remove_other _ _ _ E) in Hy. apply HT. rewrite tlookup_app. exact Hy.
+  Qed.
+
+  Definition check_types (fp : flatprog) (T : tenv) : bool :=
+    check_init T (fp_init fp) && forallb (check_ga T) (fp_body fp).
+
+  (* what is assumed of the state before the initial block: variables that are typed but
+     not initialised there (declared types) hold a value of their type *)
+  Definition init_ok (fp : flatprog) (T : tenv) (s0 : state) : Prop :=
+    typed (declared (map ga_var (fp_init fp)) T) s0.
+
   Lemma after_init_typed fp T s0 s :
     check_types fp T = true -> init_ok fp T s0 ->
     supp (exec_gas law (fp_init fp) s0) s -> typed T s.
   Proof.
-    unfold check_types, init_ok. intros H H0 Hs.
+    unfold check_types, init_ok, check_init. intros H H0 Hs.
     apply andb_true_iff in H; destruct H as [Hi _].
-    pose proof (check_init_sound _ _ _ _ _ Hi H0 _ Hs) as HT.
-    intros x vs Hx. apply (HT x vs); [|exact Hx].
-    unfold readable. rewrite app_nil_r.
-    destruct (mem_var x (map ga_var (fp_init fp))) eqn:E; simpl; [|apply orb_true_r].
-    rewrite orb_false_r. unfold mem_var in *. apply existsb_exists in E. destruct E as [y [Hy Hxy]].
-    apply String.eqb_eq in Hxy; subst. apply existsb_exists. exists y; split; [|apply String.eqb_refl].
-    apply in_rev in Hy. exact Hy.
+    set (iv := map ga_var (fp_init fp)) in *.
+    destruct (init_env (declared iv T) [] (fp_init fp)) as [L|] eqn:EL; [|discriminate].
+    assert (HT : typed (L ++ declared iv T) s).
+    { eapply (init_env_sound (declared iv T) iv (fp_init fp)); eauto.
+      - intros g Hg. apply mem_var_In. unfold iv. apply in_map; exact Hg.
+      - intros x Hx. apply tlookup_declared_init; exact Hx. }
+    intros x vs Hx. rewrite forallb_forall in Hi.
+    assert (Hin : In (x, vs) T).
+    { clear - Hx. induction T as [|[y ws] T IH]; simpl in Hx; [discriminate|].
+      destruct (var_eqb x y) eqn:E; [apply String.eqb_eq in E; subst; injection Hx as <-; left; reflexivity | right; auto]. }
+    specialize (Hi (x, vs) Hin). cbn [fst snd] in Hi.
+    destruct (mem_var x iv) eqn:Em.
+    - destruct (tlookup L x) as [rs|] eqn:ELx; [|discriminate].
+      apply (subset_In _ _ Hi). apply HT. rewrite tlookup_app, ELx. reflexivity.
+    - apply HT. rewrite tlookup_app.
+      destruct (tlookup L x) as [rs|] eqn:ELx.
+      + (* L only mentions initialised variables *)
+        exfalso. clear - EL ELx Em.
+        assert (G : forall l L0 L1, init_env (declared iv T) L0 l = Some L1 ->
+                     (forall g, In g l -> mem_var (ga_var g) iv = true) ->
+                     (forall y r, tlookup L0 y = Some r -> mem_var y iv = true) ->
+                     forall y r, tlookup L1 y = Some r -> mem_var y iv = true).
+        { induction l as [|g l IHl]; simpl; intros L0 L1 H Hl H0 y r Hy.
+          - injection H as <-. eapply H0; eauto.
+          - destruct (ga_cond g); try discriminate.
+            destruct (rhs_set all_vars (L0 ++ declared iv T) (ga_rhs g)).
+            + eapply (IHl _ _ H); eauto. intros z rz Hz. simpl in Hz.
+              destruct (var_eqb z (ga_var g)) eqn:E; [apply String.eqb_eq in E; subst; apply Hl; left; reflexivity | eapply H0; eauto].
+            + eapply (IHl _ _ H); eauto. intros z rz Hz.
+              destruct (var_eqb z (ga_var g)) eqn:E.
+              * apply String.eqb_eq in E; subst. rewrite tlookup_remove_same in Hz. discriminate.
+              * rewrite (tlookup_remove_other _ _ _ E) in Hz. eapply H0; eauto. }
+        assert (mem_var x iv = true); [|congruence].
+        eapply (G (fp_init fp) [] L EL); eauto.
+        * intros g Hg. apply mem_var_In. unfold iv. apply in_map; exact Hg.
+        * intros y r Hy. discriminate Hy.
+      + rewrite tlookup_declared_other by exact Em. exact Hx.
   Qed.
 
   Theorem check_types_sound fp T :
